@@ -57,6 +57,8 @@ def configure(d, base='vae', rev='rev0', tls=True, client_certs=False):
     ctx.log_port = LOG_PORT
     ctx.fe_path = os.path.join(d, 'fe')
     ctx.site_path = ''
+    ctx.sanction_override = 'dawgie.security.is_sanctioned'
+    ctx.identity_override = 'dawgie.security.fetch_identity'
     ctx.git_rev = rev
     ctx.allow_promotion = False
     ctx.email_alerts_to = ''
